@@ -32,6 +32,8 @@ pub enum T1 {
     Tup(Option<String>, Vec<Vec<T1>>),
     Var(String),
     Match(Pat1),
+    /// branches: condition steps, optional consequence steps
+    Block(Vec<(Vec<Vec<T1>>, Option<Vec<Vec<T1>>>)>),
 }
 
 #[derive(Clone, Debug, PartialEq)]
@@ -42,6 +44,9 @@ pub enum Ty {
     Ok,
     /// the verdict of a refutable match
     OkNil,
+    /// a block's value when its branches differ: only binders / placeholders are applied to it (a
+    /// structured pattern on a union type gets a run-time type test, which is outside the fragment)
+    Any,
 }
 
 impl Ty {
@@ -60,6 +65,8 @@ pub struct Gen<'a> {
     /// "stale static type after rebinding" (a narrowing recorded under the NAME survives the rebinding),
     /// after which the compiler treats a later pattern as statically impossible
     pub counter: u32,
+    /// generate blocks too
+    pub blocks: bool,
 }
 
 impl<'a> Gen<'a> {
@@ -148,6 +155,35 @@ impl<'a> Gen<'a> {
                 }
                 None => (self.int(), Ty::Int),
             },
+            7 | 8 if flow.is_some() && depth > 0 && self.blocks => {
+                let tin = flow.unwrap().clone();
+                let nb = 1 + self.r.usize(3);
+                let mut branches = vec![];
+                let mut tys: Vec<Ty> = vec![];
+                let mut may_fall_through = true;
+                for b in 0..nb {
+                    let mark = self.env.len();
+                    let nc = 1 + self.r.usize(2);
+                    let (cond, cty) = self.seq_in(Some(&tin), depth - 1, nc);
+                    // a single branch without `=>` whose steps bind nothing is removed by the
+                    // simplifier (spliced / lifted): single-branch blocks get a consequence
+                    let with_cons = nb == 1 || self.r.chance(1, 2);
+                    let cons = if with_cons {
+                        let nk = 1 + self.r.usize(2);
+                        let (k, kty) = self.seq_in(Some(&tin), depth - 1, nk);
+                        tys.push(kty);
+                        Some(k)
+                    } else {
+                        tys.push(if cty == Ty::OkNil { Ty::Ok } else { cty.clone() });
+                        None
+                    };
+                    let _ = (b, &mut may_fall_through);
+                    self.env.truncate(mark);
+                    branches.push((cond, cons));
+                }
+                let ty = if tys.iter().all(|t| *t == tys[0]) && tys[0] != Ty::OkNil && !tys[0].is_static_nil() { Ty::Any } else { Ty::Any };
+                (T1::Block(branches), ty)
+            }
             _ => {
                 let k = 1 + self.r.usize(3);
                 let name = if self.r.chance(1, 3) { Some(["A", "B", "P"][self.r.usize(3)].to_string()) } else { None };
@@ -179,19 +215,27 @@ impl<'a> Gen<'a> {
     /// `c₁, c₂, …`; every step but the last has a type that is not statically nil
     pub fn seq(&mut self, depth: u32) -> Vec<Vec<T1>> {
         let n = 1 + self.r.usize(4);
+        self.seq_in(None, depth, n).0
+    }
+
+    /// a sequence of `n` steps whose first chain receives `start`; no step at all is statically nil
+    /// (a statically nil CONDITION makes the compiler skip the branch)
+    fn seq_in(&mut self, start: Option<&Ty>, depth: u32, n: usize) -> (Vec<Vec<T1>>, Ty) {
         let mut out = vec![];
-        let mut flow: Option<Ty> = None;
-        for i in 0..n {
+        let mut flow: Option<Ty> = start.cloned();
+        let mut last = Ty::Int;
+        for _ in 0..n {
             let (mut c, mut ty) = self.chain(flow.as_ref(), depth);
-            if i + 1 < n && ty.is_static_nil() {
+            if ty.is_static_nil() {
                 c.push(self.int());
                 ty = Ty::Int;
             }
             out.push(c);
+            last = ty.clone();
             // after a refutable match the next step only runs on `Ok`
             flow = Some(if ty == Ty::OkNil { Ty::Ok } else { ty });
         }
-        out
+        (out, last)
     }
 }
 
@@ -225,6 +269,16 @@ fn src_term(t: &T1) -> String {
                 return n.clone().unwrap_or_else(|| "[]".into());
             }
             format!("{}[{}]", n.clone().unwrap_or_default(), fs.iter().map(|c| src_chain(c)).collect::<Vec<_>>().join(", "))
+        }
+        T1::Block(bs) => {
+            let parts: Vec<String> = bs
+                .iter()
+                .map(|(c, k)| match k {
+                    Some(k) => format!("{} => {}", src_seq(c), src_seq(k)),
+                    None => src_seq(c),
+                })
+                .collect();
+            format!("{{ {} }}", parts.join(" | "))
         }
     }
 }
@@ -290,6 +344,26 @@ fn sx_term(t: &T1, ids: &mut Ids, checks: &mut Vec<Check>) -> Option<String> {
                 checks.push(Check::Fixed(*ids.tuples.next()?, 0));
             }
             format!("(m {body})")
+        }
+        T1::Block(bs) => {
+            let mut out = "(blk".to_string();
+            for (c, k) in bs {
+                let mut cs = vec![];
+                for ch in c {
+                    cs.push(sx_chain(ch, ids, checks)?);
+                }
+                out.push_str(&format!(" (br (s {})", cs.join(" ")));
+                if let Some(k) = k {
+                    let mut ks = vec![];
+                    for ch in k {
+                        ks.push(sx_chain(ch, ids, checks)?);
+                    }
+                    out.push_str(&format!(" (s {})", ks.join(" ")));
+                }
+                out.push(')');
+            }
+            out.push(')');
+            out
         }
         T1::Tup(n, fs) => {
             let mut inner = vec![];
